@@ -367,13 +367,7 @@ func TestVerifSanity(t *testing.T) {
 			hit[[2]int{o.Script, o.Stmt}] = true
 		}
 		for si, s := range c.Scripts {
-			last := -1
-			for _, m := range obs.Scripts[si].Msgs {
-				var gs, gk int
-				if n, _ := fmt.Sscanf(m, c19.MarkPrefix+" s%d k%d", &gs, &gk); n == 2 {
-					last = gk
-				}
-			}
+			last := obs.ProbeReached[si] // (the probes do not depend on the log level)
 			for k, st := range s.Stmts {
 				if k > last {
 					break
